@@ -54,7 +54,7 @@ def tasks_for(tier):
     if tier != 'quick':
         T += [(nt, 2, 2, 2, ts2, 0.1, 1) for nt in ('diagonal', 'scalar', 'additive', 'general')]
         T += [(nt, 1, 2, 1, ts3, 0.1, 1) for nt in ('diagonal', 'general')]
-        T += [('diagonal', 1, 1, 1, [0.0, 0.2, 0.4], 0.1, 1)]
+        T += [('scalar', 1, 1, 1, ts3, 0.1, 1), ('additive', 1, 2, 1, ts3, 0.1, 1)]      # 4 steps exceed the polynomial budget (stated bound: 3)
     return T
 
 
@@ -62,7 +62,7 @@ def run(ctx):
     ctx.fn('sdeint_adjoint', '_SdeintAdjointMethod.forward / backward', 'AdjointReversibleHeun.step', 'AdjointSDE.get_state',
            'ReversibleHeun.step', 'ReverseBrownian.__call__', 'misc.vjp / flatten / flat_to_shape', 'sdeint + torch.autograd.grad (backprop reference)')
     ctx.stubs.append('Brownian motion: deterministic stub keyed by the queried interval (the adjoint pass re-queries it through the real ReverseBrownian)')
-    ctx.bounds = {'steps': '2 (quadratic f,g) / 3-4 (affine f,g) with output times on the dt grid', 'dims': 'd<=2, m<=2, batch<=2', 'noise types': 'all four',
+    ctx.bounds = {'steps': '2 (quadratic f,g) / 3 (affine f,g, thorough) with output times on the dt grid', 'dims': 'd<=2, m<=2, batch<=2', 'noise types': 'all four',
                   'loss': 'arbitrary linear weights on every output'}
     ctx.assumptions += ['algebraic identity over the reals; accumulated float rounding (the 1e-9 of the statement) is reported by the replay only']
     ctx.outside += ['float rounding magnitude', 'more steps than the bound (polynomial degree doubles per step)']
